@@ -634,12 +634,22 @@ func samplePlan(p *core.Plan) interface{} {
 
 func writeEvidence(prop, tier string, seed uint64, info propInfo, s *summary, wall float64, nviol int, known []string) {
 	faults := map[string]int64{}
+	var notFired []string
 	for _, k := range []string{"tick_delivered", "tick_delivered_in_stmt", "stall_in_stmt", "flusher_parked_on_lock", "tick_queued_while_busy", "tick_dropped",
 		"clean_restart", "recoveries", "recoveries_with_redo", "image_boundary", "image_wal", "image_flush", "forced_flush",
 		"image_flush_none", "image_flush_only-new", "image_flush_existing-without-all-new", "image_flush_all-pages-no-header", "image_flush_other", "image_flush_complete",
 		"image_wal_len_write", "image_wal_body_write", "image_wal_sync_write", "image_wal_len_sync", "image_wal_body_sync", "image_wal_sync_sync",
 		"lru_evict", "lru_refuse", "cold_read", "replay_redo", "replay_skip", "abandoned_cache_full"} {
-		faults[k] = s.stats[k]
+		if s.stats[k] > 0 {
+			faults[k] = s.stats[k]
+		} else {
+			notFired = append(notFired, k)
+		}
+	}
+	for k, v := range s.stats {
+		if strings.HasPrefix(k, "fault_") {
+			faults[k] = v
+		}
 	}
 	probes := map[string]int64{}
 	for k, v := range s.stats {
@@ -670,6 +680,7 @@ func writeEvidence(prop, tier string, seed uint64, info propInfo, s *summary, wa
 			"run_seeds":           seedRange,
 			"simulated_time_s":    float64(s.simMs) / 1000,
 			"faults_fired":        faults,
+			"fault_kinds_not_fired_in_this_run": notFired,
 			"reach_probes":        probes,
 			"distinct_event_logs": len(s.hashes),
 			"counters":            s.stats,
